@@ -260,7 +260,8 @@ theorem folderEff_name (n : Node) (op : Op) (G : Folder) : (folderEff n op G).na
   case fsRestoreFolder F =>
     split
     · split
-      · unfold Folder.restore; split <;> rfl
+      · rcases Folder.restoreIn_cases n.folders G with e | e <;> rw [e]
+        unfold Folder.restore; split <;> rfl
       · rfl
     · rfl
   all_goals (first | rfl | ((repeat' split) <;> rfl))
@@ -360,7 +361,8 @@ theorem folderEff_visible (n : Node) (op : Op) (G : Folder) :
     simp only [Bool.false_eq_true, if_false]
     split
     · split
-      · unfold Folder.restore; split <;> rfl
+      · rcases Folder.restoreIn_cases n.folders G with e | e <;> rw [e]
+        unfold Folder.restore; split <;> rfl
       · rfl
     · rfl
   all_goals (simp only [Bool.false_eq_true, if_false]; try ((repeat' split) <;> rfl))
@@ -608,6 +610,10 @@ theorem C14_sw_actual_only_by_event (n : Node) (op : Op) (i : Nat) (x x' : Sw)
   all_goals exact hne rfl
 
 
+/-- the quirk of the completing folder restore: a deleted file that is un-deleted AND has a deleted twin gets a second `restore()` -/
+def File.twiceRestored (fs : List File) (f : File) : Bool :=
+  f.deleted && !hasLive f.name fs && firstDeleted fs f && deadTwin fs f
+
 /-- The explicit events that can write the actual health of file `f` of folder `G` in step `op`. -/
 def fileActualCause (n : Node) (op : Op) (G : Folder) (f : File) (new : FsH) : Prop :=
   match op with
@@ -622,7 +628,8 @@ def fileActualCause (n : Node) (op : Op) (G : Folder) (f : File) (new : FsH) : P
   | .folder F .repair => n.power = .on ∧ G.name = F ∧ G.deleted = false ∧ f.deleted = false ∧ f.actual = .corrupt ∧ new = .good
   /- timed completion of a folder restore -/
   | .tick =>
-    n.powerPhase.power = .on ∧ G.deleted = false ∧ G.restoreCd = 1 ∧ f.deleted = false ∧ f.actual = .corrupt ∧ new = .good
+    n.powerPhase.power = .on ∧ G.deleted = false ∧ G.restoreCd = 1 ∧
+      (f.deleted = false ∨ File.twiceRestored G.files f = true) ∧ f.actual = .corrupt ∧ new = .good
   | _ => False
 
 theorem File.repair_actual (f : File) (h : f.repair.actual ≠ f.actual) :
@@ -646,9 +653,43 @@ theorem File.restore_actual (f : File) (h : f.restore.actual ≠ f.actual) :
 theorem File.restoreIn_actual (fs : List File) (f : File) (h : (File.restoreIn fs f).actual ≠ f.actual) :
     f.deleted = false ∧ f.actual = .corrupt ∧ (File.restoreIn fs f).actual = .good := by
   unfold File.restoreIn at h ⊢
-  split at h
-  · exact absurd rfl h
-  · rename_i hc; rw [if_neg hc]; exact File.restore_actual f h
+  cases hd : f.deleted
+  · simp only [hd, Bool.false_eq_true, if_false] at h ⊢
+    have := File.restore_actual f h
+    exact ⟨trivial, this.2.1, this.2.2⟩
+  · exfalso; apply h
+    simp only [hd, if_true]
+    (repeat' split) <;> first | rfl | (unfold File.restore; simp [hd])
+
+theorem File.restore_restore_actual (f : File) (hd : f.deleted = true) :
+    f.restore.restore.actual = if f.actual = .corrupt then .good else f.actual := by
+  unfold File.restore
+  simp only [hd, if_true, Bool.false_eq_true, if_false]
+  split <;> rfl
+
+theorem File.restoreAll_actual (fs : List File) (f : File) (h : (File.restoreAll fs f).actual ≠ f.actual) :
+    (f.deleted = false ∨ File.twiceRestored fs f = true) ∧ f.actual = .corrupt ∧ (File.restoreAll fs f).actual = .good := by
+  unfold File.restoreAll at h ⊢
+  cases hd : f.deleted
+  · simp only [hd, Bool.false_eq_true, if_false] at h ⊢
+    have := File.restore_actual f h
+    exact ⟨Or.inl trivial, this.2.1, this.2.2⟩
+  · simp only [hd, if_true] at h ⊢
+    by_cases h1 : hasLive f.name fs = true
+    · simp only [h1, if_true] at h; exact absurd rfl h
+    · by_cases h2 : firstDeleted fs f = true
+      · by_cases h3 : deadTwin fs f = true
+        · simp only [h1, h2, h3, if_true, if_false, Bool.false_eq_true] at h ⊢
+          rw [File.restore_restore_actual f hd] at h ⊢
+          by_cases hc : f.actual = .corrupt
+          · simp only [hc, if_true] at h ⊢
+            refine ⟨Or.inr ?_, trivial, trivial⟩
+            simp [File.twiceRestored, hd, h1, h2, h3]
+          · simp only [hc, if_false] at h; exact absurd rfl h
+        · simp only [h1, h2, h3, if_true, if_false, Bool.false_eq_true] at h
+          exfalso; apply h; unfold File.restore; simp [hd]
+      · simp only [h1, h2, if_false, Bool.false_eq_true] at h; exact absurd rfl h
+
 theorem File.corrupt_actual (f : File) (h : f.corrupt.actual ≠ f.actual) :
     f.deleted = false ∧ f.actual = .good ∧ f.corrupt.actual = .corrupt := by
   unfold File.corrupt at h ⊢
@@ -686,8 +727,12 @@ theorem C14_file_actual_only_by_event (n : Node) (op : Op) (j k : Nat) (G G' : F
         have hd : ((fun f1 : File => if G.scanCd = 1 then f1.scan else f1)
             (if n.powerPhase.scanCd = 1 then f.scan else f)).deleted = f.deleted := by
           by_cases h2 : G.scanCd = 1 <;> by_cases h3 : n.powerPhase.scanCd = 1 <;> simp [h2, h3]
-        have := File.restoreIn_actual G.files _ (by rw [ha]; exact hne)
-        exact ⟨hc.1, hc.2, trivial, by rw [← hd]; exact this.1, by rw [← ha]; exact this.2.1, this.2.2⟩
+        have ht : File.twiceRestored G.files ((fun f1 : File => if G.scanCd = 1 then f1.scan else f1)
+            (if n.powerPhase.scanCd = 1 then f.scan else f)) = File.twiceRestored G.files f := by
+          by_cases h2 : G.scanCd = 1 <;> by_cases h3 : n.powerPhase.scanCd = 1 <;>
+            simp [h2, h3, File.twiceRestored, firstDeleted, deadTwin]
+        have := File.restoreAll_actual G.files _ (by rw [ha]; exact hne)
+        exact ⟨hc.1, hc.2, trivial, by rw [← hd, ← ht]; exact this.1, by rw [← ha]; exact this.2.1, this.2.2⟩
       · exfalso; apply hne
         simp only [h1, if_false]
         by_cases h2 : G.scanCd = 1 <;> by_cases h3 : n.powerPhase.scanCd = 1 <;> simp [h2, h3]
@@ -723,7 +768,7 @@ theorem C14_file_actual_only_by_event (n : Node) (op : Op) (j k : Nat) (G G' : F
     split at hne
     · rename_i hc; rw [if_pos hc]; exact ⟨hc.1, hc.2, rfl⟩
     · exact absurd rfl hne
-  all_goals first | exact hne rfl | (exfalso; apply hne; split <;> rfl)
+  all_goals first | exact hne rfl | (exfalso; apply hne; split <;> simp)
 
 
 /-! ## 4. timing: a fix takes exactly `max(1, fixing_duration)` timesteps of a powered-on node -/
@@ -947,7 +992,12 @@ theorem folderEff_scanCd_running (n : Node) (op : Op) (G : Folder) (h : 1 ≤ G.
   case folder F r =>
     (repeat' split) <;> first | rfl | exact (G.handle_cds r).1 h
   case fsRestoreFolder F =>
-    (repeat' split) <;> first | rfl | (unfold Folder.restore; split <;> rfl)
+    split
+    · split
+      · rcases Folder.restoreIn_cases n.folders G with e | e <;> rw [e]
+        unfold Folder.restore; split <;> rfl
+      · rfl
+    · rfl
   all_goals ((repeat' split) <;> rfl)
 
 theorem folderEff_restoreCd_running (n : Node) (op : Op) (G : Folder) (h : 1 ≤ G.restoreCd) :
@@ -971,7 +1021,12 @@ theorem folderEff_restoreCd_running (n : Node) (op : Op) (G : Folder) (h : 1 ≤
   case folder F r =>
     (repeat' split) <;> first | rfl | exact (G.handle_cds r).2 h
   case fsRestoreFolder F =>
-    (repeat' split) <;> first | rfl | (unfold Folder.restore; split <;> first | rfl | omega)
+    split
+    · split
+      · rcases Folder.restoreIn_cases n.folders G with e | e <;> rw [e]
+        unfold Folder.restore; split <;> first | rfl | omega
+      · rfl
+    · rfl
   all_goals ((repeat' split) <;> rfl)
 
 /-- generic countdown argument shared by folder scan and folder restore -/
@@ -1052,7 +1107,8 @@ theorem C14_folder_restore_not_early (ops : List Op) (n : Node) (j : Nat) (G : F
   folder_cd_not_early (·.restoreCd) folderEff_restoreCd_running ops n j G c hG hc hk
 
 /-- **C14 folder restore timing, part 2 (on time).** The `c`-th timestep that reaches the folder completes the
-restore: every file is live again — except a deleted file that has a LIVE namesake, which `restore_file` never reaches —,
+restore: every file is live again — except a deleted file that has a LIVE namesake or is not the first deleted file of its name in
+deletion order, which `restore_file` never reaches —,
 every file that was live and CORRUPT is GOOD (a deleted file comes back with the health it had), and the folder itself is no longer CORRUPT / RESTORING. -/
 theorem C14_folder_restore_completes_on_time (ops : List Op) (n : Node) (j : Nat) (G : Folder) (c : Int)
     (hG : n.folders[j]? = some G) (hc : G.restoreCd = c) (hk : (effFolderTicks n j ops : Int) + 1 = c) :
@@ -1061,8 +1117,9 @@ theorem C14_folder_restore_completes_on_time (ops : List Op) (n : Node) (j : Nat
         ∃ G'', ((n.run ops).apply .tick).folders[j]? = some G'' ∧ G''.name = G.name ∧ G''.restoreCd = 0 ∧
           G''.actual ≠ .corrupt ∧ G''.actual ≠ .restoring ∧
           G''.files.map (fun f => (f.deleted, f.actual)) =
-            G'.files.map (fun f => (f.deleted && hasLive f.name G'.files,
-              if f.deleted = false ∧ f.actual = .corrupt then FsH.good else f.actual))) := by
+            G'.files.map (fun f => (f.deleted && (hasLive f.name G'.files || !firstDeleted G'.files f),
+              if (f.deleted = false ∨ File.twiceRestored G'.files f = true) ∧ f.actual = .corrupt then FsH.good
+              else f.actual))) := by
   obtain ⟨G', h1, h2, h3⟩ := C14_folder_restore_not_early ops n j G c hG hc (by omega)
   have hcd : G'.restoreCd = 1 := by rw [h3]; omega
   refine ⟨G', h1, hcd, fun ht => ⟨folderEff (n.run ops) .tick G', ?_, (folderEff_name _ _ _).trans h2, ?_, ?_⟩⟩
@@ -1097,30 +1154,46 @@ theorem C14_folder_restore_completes_on_time (ops : List Op) (n : Node) (j : Nat
       apply List.map_congr_left
       intro f _
       simp only [Function.comp_def, fileEff, hon, hd, and_self, if_true, hcd]
-      have hr : ∀ g : File, (∀ nm, hasLive nm [] = false) → g.name = f.name → g.deleted = f.deleted → g.actual = f.actual →
-          ((File.restoreIn G'.files g).deleted, (File.restoreIn G'.files g).actual) =
-            (f.deleted && hasLive f.name G'.files, if f.deleted = false ∧ f.actual = .corrupt then FsH.good else f.actual) := by
-        intro g _ hn hdl ha
-        unfold File.restoreIn
-        rw [hn, hdl]
-        cases hfd : f.deleted <;> cases hl : hasLive f.name G'.files
+      have hr : ∀ g : File, g.name = f.name → g.deleted = f.deleted → g.actual = f.actual → g.delSeq = f.delSeq →
+          ((File.restoreAll G'.files g).deleted, (File.restoreAll G'.files g).actual) =
+            (f.deleted && (hasLive f.name G'.files || !firstDeleted G'.files f),
+              if (f.deleted = false ∨ File.twiceRestored G'.files f = true) ∧ f.actual = .corrupt then FsH.good
+              else f.actual) := by
+        intro g hn hdl ha hs
+        have hfd : firstDeleted G'.files g = firstDeleted G'.files f := by unfold firstDeleted; rw [hn, hs]
+        have hdt : deadTwin G'.files g = deadTwin G'.files f := by unfold deadTwin; rw [hn]
+        unfold File.restoreAll File.twiceRestored
+        rw [hn, hdl, hfd, hdt]
+        cases hfdel : f.deleted <;> cases hl : hasLive f.name G'.files <;> cases hf1 : firstDeleted G'.files f <;>
+          cases hf2 : deadTwin G'.files f
         all_goals simp only [Bool.and_self, Bool.and_true, Bool.and_false, Bool.false_and, Bool.true_and, Bool.false_eq_true,
-          if_false, if_true, true_and, false_and]
+          if_false, if_true, true_and, false_and, Bool.or_false, Bool.or_true, Bool.not_true, Bool.not_false, true_or, false_or,
+          or_false, or_true, reduceCtorEq, Bool.true_eq_false]
         all_goals (try unfold File.restore)
-        all_goals (by_cases hgc : f.actual = .corrupt <;> simp [hgc, ha, hdl, hfd])
+        all_goals (by_cases hgc : f.actual = .corrupt <;> simp [hgc, ha, hdl, hfdel])
       by_cases h2 : G'.scanCd = 1 <;> by_cases h3 : (n.run ops).powerPhase.scanCd = 1 <;>
-        simp only [h2, h3, if_true, if_false] <;> apply hr <;> simp [hasLive]
+        simp only [h2, h3, if_true, if_false] <;> apply hr <;> simp
 
-/-- A `restore` request (folder route or file-system route) loads `max(restore_duration, 1)` and marks the folder
-RESTORING — unless a restore is already running, in which case the countdown is left alone. -/
+/-- A `restore` request (folder route; or file-system route, which reaches the live folder of that name, else the first deleted one
+in deletion order) loads `max(restore_duration, 1)` and marks the folder RESTORING — unless a restore is already running, in
+which case the countdown is left alone. -/
 theorem C14_folder_restore_request (n : Node) (F : String) (G : Folder) (hon : n.power = .on) (hn : G.name = F) :
-    (folderEff n (.fsRestoreFolder F) G).restoreCd = (if G.restoreCd ≤ 0 then max G.restoreDur 1 else G.restoreCd) ∧
+    ((G.deleted = false ∨ (hasLiveFolder G.name n.folders = false ∧ firstDeletedFolder n.folders G = true)) →
+      (folderEff n (.fsRestoreFolder F) G).restoreCd = (if G.restoreCd ≤ 0 then max G.restoreDur 1 else G.restoreCd)) ∧
     (G.deleted = false →
       (folderEff n (.folder F .restore) G).restoreCd = (if G.restoreCd ≤ 0 then max G.restoreDur 1 else G.restoreCd)) := by
-  simp only [folderEff, Folder.handle, Folder.restore, hon, hn, if_true, true_and]
   constructor
-  · split <;> rfl
-  · intro hd; simp only [hd, if_true]; split <;> rfl
+  · intro hreach
+    have hr : Folder.restoreIn n.folders G = G.restore := by
+      unfold Folder.restoreIn
+      rcases hreach with hd | ⟨h1, h2⟩
+      · simp [hd]
+      · simp [h1, h2]
+    simp only [folderEff, hon, hn, if_true, hr, Folder.restore]
+    split <;> rfl
+  · intro hd
+    simp only [folderEff, Folder.handle, Folder.restore, hon, hn, if_true, true_and, hd]
+    split <;> rfl
 
 
 /-! ## 6. timing: the whole-node scan fans out after exactly `max(1, node_scan_duration)` timesteps of a powered-on node -/
